@@ -32,6 +32,10 @@ type scope struct {
 	instances   map[instanceKey]any
 	instancesMu sync.RWMutex
 
+	// Per-key locks serialising the construction of scoped instances
+	creating   map[instanceKey]*sync.Mutex
+	creatingMu sync.Mutex
+
 	// Track disposable scoped instances
 	disposables   []Disposable
 	disposablesMu sync.Mutex
@@ -289,6 +293,24 @@ func (s *scope) Close() error {
 	return nil
 }
 
+// creationLock returns the lock that serialises construction of the given scoped service.
+func (s *scope) creationLock(key instanceKey) *sync.Mutex {
+	s.creatingMu.Lock()
+	defer s.creatingMu.Unlock()
+
+	if s.creating == nil {
+		s.creating = make(map[instanceKey]*sync.Mutex)
+	}
+
+	lock, ok := s.creating[key]
+	if !ok {
+		lock = &sync.Mutex{}
+		s.creating[key] = lock
+	}
+
+	return lock
+}
+
 // getInstance retrieves a cached instance from this scope in a thread-safe manner.
 // Returns the instance and true if found, or nil and false if not cached.
 func (s *scope) getInstance(key instanceKey) (any, bool) {
@@ -369,6 +391,16 @@ func (s *scope) resolve(key instanceKey, descriptor *Descriptor) (any, error) {
 
 	case Scoped:
 		// Check for circular dependency only when creating new instance
+		if instance, ok := s.getInstance(key); ok {
+			return instance, nil
+		}
+
+		// Only one goroutine constructs a given scoped service; the others wait
+		// and then find it in the cache
+		lock := s.creationLock(key)
+		lock.Lock()
+		defer lock.Unlock()
+
 		if instance, ok := s.getInstance(key); ok {
 			return instance, nil
 		}
